@@ -499,7 +499,11 @@ def plan(tier):
         if tier == 'thorough' or _cgate(menu[i]) == 2:
             t.append({'kind': 'cons2', 'ci': i, 'full': tier == 'thorough'})
     for n in (4, 5, 8, 9, 10, 11, 12):
-        t.append({'kind': 'wide', 'n': n, 'r': 1})
+        for b in ('AIG', 'XAIG', 'FULL'):
+            for pair in range(1 if n < 11 else 4):
+                if pair and b != 'XAIG':
+                    continue
+                t.append({'kind': 'wide', 'n': n, 'r': 1, 'basis': b, 'pair': pair})
     for n in (4, 6, 9, 10):
         t.append({'kind': 'wide', 'n': n, 'r': 2})
     for n in (4, 5) if tier == 'quick' else (4, 5, 6):
@@ -631,8 +635,10 @@ def run_task(task, acc):
             mr = (''.join('1' if (f >> j) & 1 else '0' for j in range(8)),)
             _cons_config(acc, 3, 2, 'XAIG', mr, [c])
     elif k == 'wide':
-        for b in (('AIG', 'XAIG', 'FULL') if task['r'] == 1 else ('XAIG',)):
-            for mr in wide_models(task['n']):
+        ms = wide_models(task['n'])
+        per = 8  # models per operand pair
+        for b in ([task['basis']] if task.get('basis') else (('AIG', 'XAIG', 'FULL') if task['r'] == 1 else ('XAIG',))):
+            for mr in (ms if task.get('pair') is None else ms[task['pair'] * per:(task['pair'] + 1) * per]):
                 check_config(acc, task['n'], task['r'], b, mr, [], enum_models=False)
         acc.sample({'n': task['n'], 'r': task['r'], 'basis': 'XAIG', 'model': ['(g(x0, x_last) on rows 0..23 and the last 4 rows, * elsewhere)'], 'constraints': []})
     elif k == 'disjoint':
@@ -741,18 +747,25 @@ def check_incremental(acc, n, r, bname, model_rows, con):
 
 
 def wide_models(n):
-    """Many inputs, few care rows (the CNF stays small): target g(x0, x_{n-1}) on the first 24 rows and the
-    last 4 rows, don't-care elsewhere."""
+    """Many inputs, few care rows (the CNF stays small): target g(x_p, x_q) on the rows that exercise the pair, the first 8 and the last 4
+    rows, don't-care elsewhere."""
     rows = 1 << n
-    care = sorted(set(list(range(min(24, rows))) + list(range(max(0, rows - 4), rows))))
     out = []
-    for g in ('AND', 'NOR', 'XOR', 'GT', 'LEQ', 'NAND'):
-        s_ = ['*'] * rows
-        for j in care:
-            a = (j >> (n - 1)) & 1
-            b = j & 1
-            s_[j] = '1' if refmodel.gate_bool(g, (bool(a), bool(b))) else '0'
-        out.append((''.join(s_),))
+    # operand pairs: (x0, x_last) and, from 11 inputs on, pairs whose decimal labels sort differently as strings
+    # ('10' < '2', '11' < '9'): care rows = the four combinations of the pair (others 0) + a few fixed rows
+    pairs = [(0, n - 1)]
+    if n >= 11:
+        pairs += [(2, n - 1), (9, 10), (1, 10)]
+    for p, q in pairs:
+        combos = [((1 << (n - 1 - p)) if a else 0) | ((1 << (n - 1 - q)) if b else 0) for a in (0, 1) for b in (0, 1)]
+        care = sorted(set(combos + list(range(min(8, rows))) + list(range(max(0, rows - 4), rows))))
+        for g in ('AND', 'NOR', 'XOR', 'GT', 'LEQ', 'NAND', 'LT', 'GEQ'):
+            s_ = ['*'] * rows
+            for j in care:
+                a = (j >> (n - 1 - p)) & 1
+                b = (j >> (n - 1 - q)) & 1
+                s_[j] = '1' if refmodel.gate_bool(g, (bool(a), bool(b))) else '0'
+            out.append((''.join(s_),))
     return out
 
 
